@@ -78,8 +78,8 @@ def _env():
     return e
 
 
-def run_kani(crate_dir, harness, timeout, playback=False):
-    cmd = ['cargo', 'kani', '--harness', harness]
+def run_kani(crate_dir, harness, timeout, playback=False, extra=()):
+    cmd = ['cargo', 'kani'] + list(extra) + ['--harness', harness]
     if playback:
         cmd += ['-Z', 'concrete-playback', '--concrete-playback=print']
     t0 = time.time()
@@ -130,7 +130,7 @@ def _cex(setname, crate, h, crate_dir):
     rp = h.get('replay')
     if not rp:
         return {'found': False, 'note': 'harness has no replay layout'}
-    st, out, dt, cmd = run_kani(crate_dir, h['name'], h.get('timeout', 900), playback=True)
+    st, out, dt, cmd = run_kani(crate_dir, h['name'], h.get('timeout', 900), playback=True, extra=h.get('kani_args', ()))
     vecs = playback_bytes(out)
     if not vecs:
         return {'found': False, 'note': 'kani printed no concrete values'}
@@ -197,7 +197,7 @@ def run_harness_set(spec, tier='quick', known=()):
     for h in reg['harnesses']:
         if tier == 'quick' and h.get('tier', 'thorough') != 'quick':
             continue
-        st, out, dt, cmd = run_kani(d, h['name'], h.get('timeout', 900))
+        st, out, dt, cmd = run_kani(d, h['name'], h.get('timeout', 900), extra=h.get('kani_args', ()))
         res['cmd'] = cmd
         rec = {'name': '%s/%s' % (setname, h['name']), 'complete': bool(h.get('complete')),
                'bound': h.get('bound'), 'ok': st == 'ok', 'time_s': round(dt, 1), 'status': st,
@@ -231,7 +231,7 @@ def counterexample_for(failure):
         for h in reg['harnesses']:
             if fn and fn in h.get('twin_of', []):
                 d = _prep(reg['crate'])
-                st, out, dt, cmd = run_kani(d, h['name'], h.get('timeout', 600))
+                st, out, dt, cmd = run_kani(d, h['name'], h.get('timeout', 600), extra=h.get('kani_args', ()))
                 if st == 'failed':
                     return _cex(setname, reg['crate'], h, d)
                 return {'found': False, 'note': 'kani twin %s/%s: %s within bound (%s)' % (setname, h['name'], st, h.get('bound'))}
